@@ -638,12 +638,13 @@ func valueOf(in ssa.Instruction) ssa.Value {
 }
 
 func C02(c *Ctx) {
-	c.R.Explanation = "Decides structural necessary conditions of match completeness on the SSA form of package match: (R1) a loop over alternatives (message members or candidate binding sets) is left only by exhaustion or by returning an error — no 'first match wins' exit; (R2) consumed message elements are removed from a copy made for that alternative, never from the map being ranged or shared with another alternative, and every recorded success records its own remaining-elements copy; (R3) in the map case nothing compares the size of the message map and the message map is ranged only for a property variable, so extra members cannot prevent a match; (R4) left-over scalar members are merged under fresh indexes starting at the length of the message array, so they cannot overwrite remaining structured members; (R5) as C01-R6: bindings are private to each alternative; (R6) as C03-R1 restricted to pattern and message: no instruction can write them, so a pattern keeps its solutions across uses; (R7) every lookup of a pattern-named member in a message map uses the comma-ok form, branches on the ok flag and never tests the value for nil, so a null member is present. That the union of explored branches is the full set of embeddings is not decided."
+	c.R.Explanation = "Decides structural necessary conditions of match completeness on the SSA form of package match: (R1) a loop over alternatives (message members or candidate binding sets) is left only by exhaustion or by returning an error — no 'first match wins' exit; (R2) consumed message elements are removed from a copy made for that alternative, never from the map being ranged or shared with another alternative, and every recorded success records its own remaining-elements copy; (R3) in the map case nothing compares the size of the message map and the message map is ranged only for a property variable, so extra members cannot prevent a match; (R4) left-over scalar members are merged under fresh indexes starting at the length of the message array, so they cannot overwrite remaining structured members; (R5) as C01-R6: bindings are private to each alternative; (R6) as C03-R1 restricted to pattern and message: no instruction can write them, so a pattern keeps its solutions across uses; (R7) every lookup of a pattern-named member in a message map uses the comma-ok form, branches on the ok flag and never tests the value for nil, so a null member is present; (R8) Bindings.Copy returns a map made in the call on every path and Match hands exactly such a copy to the internal matcher, whose 'no match' sentinel is nil bindings. That the union of explored branches is the full set of embeddings is not decided."
 	c.R.Rule("C02-R1", "E3", "no early success exit from a loop over alternatives", 4)
 	c.R.Rule("C02-R2", "E1", "consumption on a private copy", 2)
 	c.R.Rule("C02-R3", "E6", "extra members never consulted", 1)
 	c.R.Rule("C02-R4", "E5", "left-over members merged under fresh indexes", 1)
 	c.R.Rule("C02-R5", "E5+E3", "bindings private to each alternative", 2)
+	c.R.Rule("C02-R8", "E3", "matching starts from a non-nil copy of the given bindings (nil is the internal no-match sentinel)", 2)
 	c.R.Rule("C02-R7", "E5", "a message member's presence is decided by the lookup's ok flag (null is a value)", 1)
 	c.R.Rule("C02-R6", "E1", "matching leaves the pattern and the message intact (a modified pattern loses solutions on its next use)", 8)
 	m := c.newMatchModel()
@@ -884,6 +885,37 @@ func C02(c *Ctx) {
 				}
 			}
 			c.R.Check(okFlag && nilTest == "", "C02-R7", key, c.pos(lk), "presence is decided by the lookup's ok flag; the value is not tested for nil", "presence of the member is not decided by the ok flag alone (ok flag branches="+fmt.Sprint(okFlag)+", nil test of the value at "+nilTest+"): a null member is treated as absent")
+		})
+	}
+	// ---- R8: the exported entry points start the internal matcher from a non-nil map (nil is its "no match" sentinel)
+	c.freshMapResult("C02-R8", "Bindings.Copy: never nil", c.P.Func("match", "Bindings", "Copy"), "Bindings.Copy can return nil: Match(pattern, message, nil) then hands the internal matcher its own 'no match' sentinel and every match with absent initial bindings is lost")
+	if mm := c.P.Func("match", "Matcher", "Match"); mm != nil {
+		inner := c.P.Func("match", "Matcher", "match")
+		cp := c.P.Func("match", "Bindings", "Copy")
+		n8 := 0
+		ssau.Instrs(mm, func(in ssa.Instruction) {
+			cl, ok := in.(*ssa.Call)
+			if !ok || inner == nil || cl.Common().StaticCallee() != inner {
+				return
+			}
+			n8++
+			okArg := false
+			for _, a := range cl.Common().Args {
+				if !isBindingsT(a.Type()) {
+					continue
+				}
+				okArg = true
+				for _, d := range phiDefs(a, nil, map[ssa.Value]bool{}) {
+					dc, isC := d.(*ssa.Call)
+					if _, isMk := d.(*ssa.MakeMap); isMk {
+						continue
+					}
+					if !isC || dc.Common().StaticCallee() == nil || (dc.Common().StaticCallee() != cp && dc.Common().StaticCallee().Name() != "NewBindings") {
+						okArg = false
+					}
+				}
+			}
+			c.R.Check(okArg, "C02-R8", fmt.Sprintf("Match: internal matcher starts from a fresh non-nil map #%d", n8), c.pos(cl), "bindings.Copy() (or a new map)", "the internal matcher can be started on the caller's own (possibly nil) bindings")
 		})
 	}
 	// ---- R6
